@@ -595,6 +595,10 @@ def ordered_signature_pred(force):
                     if not is_hole(merged, ph, "node.dyn_kwargs"):
                         fails.append("merged mapping is not node.dyn_kwargs")
                     dyn_kw_seen = True
+                    # "keyword arguments like in Python": a keyword given explicitly AND in the ** mapping is a TypeError.
+                    # dict({...}, **m) merges first (the later value wins silently), so the call never sees the repetition
+                    fails.append("[keywords-merged-before-the-call] explicit keywords and **dyn_kwargs are merged with dict(...) before the call: "
+                                 "a repeated keyword is silently overridden instead of raising TypeError")
             elif is_hole(d, ph, "node.dyn_kwargs"):
                 dyn_kw_seen = True
             else:
@@ -788,6 +792,126 @@ class _ConstTask(FnTask):
         return "|".join(w.get("failing", ["?"]))
 
 
+# names a template may use for variables (Lexer: str.isidentifier) - plain ones and ones Python's identifier normalisation (NFKC,
+# PEP 3131) maps onto another name of the list
+IDENT_SAMPLES = ["a", "\u00aa", "o", "\u00ba", "fi", "\ufb01", "K", "\u212a", "x", "\uff58", "s", "\u017f", "\u03bc", "\u00b5", "I", "\u2160",
+                 "\u00e9", "e\u0301", "\u00c5", "\u212b", "A\u030a", "H", "\u210c", "ab", "a_b", "_", "__", "l_0_a", "a0", "u6162", "\u00e4", "\u4e2d", "x1", "\uff581"]
+
+
+def local_identifiers(task, tier, seed):
+    """Symbols._define_ref: the Python local a template name is compiled to.  Python compares identifiers after NFKC
+    normalisation, so the map name -> identifier must stay injective AFTER that normalisation (two different names never
+    share a local), at every level; checked on the real method and against Python's own compile()."""
+    import unicodedata
+    import jinja2.idtracking as IDT
+    t0 = time.time()
+    names = [n for n in IDENT_SAMPLES if n.isidentifier()]
+    task.bound_text = f"{len(names)} sample names (ASCII and names whose NFKC form is another sample), all pairs, levels 0 and 1"
+    bad = []
+    for level in (0, 1):
+        syms = IDT.Symbols(level=level)
+        idents = {n: syms._define_ref(n) for n in names}
+        for n, ident in idents.items():
+            if not ident.isidentifier():
+                bad.append((n, n, f"{ident!r} is not an identifier"))
+        # what Python makes of them
+        src = "def f():\n" + "".join(f"    {ident} = {i}\n" for i, ident in enumerate(idents.values())) + "    return locals()\n"
+        ns = {}
+        exec(compile(src, "<idents>", "exec"), ns)  # noqa: S102 - identifiers produced by _define_ref for the sample names
+        loc = ns["f"]()
+        for i, a in enumerate(names):
+            for b in names[i + 1:]:
+                na, nb = unicodedata.normalize("NFKC", idents[a]), unicodedata.normalize("NFKC", idents[b])
+                if na == nb:
+                    bad.append((a, b, f"level {level}: {a!r} -> {idents[a]!r} and {b!r} -> {idents[b]!r} are the same Python local {na!r}"))
+        if len(loc) != len(names) and not bad:
+            bad.append(("?", "?", f"level {level}: {len(names)} names compile to {len(loc)} locals"))
+    # the same name at two scope levels is two variables
+    l0, l1 = IDT.Symbols(level=0), IDT.Symbols(level=1)
+    for n in names:
+        a, b = l0._define_ref(n), l1._define_ref(n)
+        if unicodedata.normalize("NFKC", a) == unicodedata.normalize("NFKC", b):
+            bad.append((f"level0:{n}", f"level1:{n}", f"{n!r} at level 0 and at level 1 is the same Python local {a!r}"))
+    if not bad:
+        return [Res("C02.names.identifier_injective", "bounded-ok", "native", time.time() - t0, f"{len(names)} names get pairwise different Python locals", "bounded")]
+    cp = lambda n: n if n.isascii() else "U+" + "+".join(f"{ord(c):04X}" for c in n)  # noqa: E731
+    wit = {"pairs": sorted({f"{cp(a)}~{cp(b)}" for a, b, _ in bad})}
+    return [Res("C02.names.identifier_injective", "refuted", "native", time.time() - t0, f"{len(wit['pairs'])} colliding pairs, e.g. {bad[0][2]}", "bounded", wit)]
+
+
+def replay_local_identifiers(w):
+    """hunt/b/C02_8: a name lookup must not return the value of a different variable"""
+    env = jinja2.Environment()
+    problems = []
+    for src, data, want in (("{{ a }}|{{ \u00aa }}", {"a": 1, "\u00aa": 2}, "1|2"), ("{{ fi }}|{{ \ufb01 }}", {"fi": 1, "\ufb01": 2}, "1|2"),
+                            ("{% set \u00aa = 5 %}{{ a }}", {"a": 1}, "1"), ("{{ a }}{{ \u00aa is defined }}", {"a": 1}, "1False"),
+                            ("{% for \u212a in [7] %}{{ K }}{{ \u212a }}{% endfor %}", {"K": 1}, "17"), ("{{ \u00e9 }}", {"\u00e9": 3}, "3")):
+        try:
+            got = env.from_string(src).render(**data)
+        except Exception as ex:  # noqa
+            got = f"{type(ex).__name__}: {ex}"
+        if got != want:
+            problems.append(f"{src!r} with {data!r} renders {got!r}, expected {want!r}")
+    return (bool(problems), "; ".join(problems[:3]) or "names that differ only up to NFKC are different variables")
+
+
+class _PairsTask(FnTask):
+    def finding_key(self, res):
+        return "|".join((res.witness or {}).get("pairs", ["?"]))
+
+
+class _Pub:
+    """safe data: public attribute only"""
+    a = 1
+
+
+FORMAT_FAMILY = [('"{0.a}".format(o)', None), ('"{0[a]}".format(d)', None), ('"{0[0]}".format(lst)', None), ('"{x}".format(x=1)', None), ('"{0}{1}".format(1, 2)', None),
+                 ('"{0.a}".format(d)', None), ('"{0[a]}".format(o)', None), ('"{0.zz}".format(o)', None), ('"{0[zz]}".format(d)', None), ('"{0[x]}".format(lst)', None),
+                 ('"{a}".format_map(d)', None), ('"{0}".format_map(d)', None)]
+
+
+def sandbox_str_format(task, tier, seed):
+    """`"...".format(...)` is documented as the plain str method (templates.rst, Python Methods): in the sandboxed environment a
+    format string over SAFE data must give the value, or an error of the class, that Python's str.format gives"""
+    from jinja2.sandbox import SandboxedEnvironment
+    t0 = time.time()
+    task.bound_text = f"{len(FORMAT_FAMILY)} fixed format expressions over safe data (public attribute, dict, list), default vs sandboxed environment vs Python"
+    data = lambda: dict(o=_Pub(), d={"a": 1}, lst=[1, 2])  # noqa: E731
+
+    def run(fn):
+        try:
+            return ("value", fn())
+        except Exception as ex:  # noqa
+            return ("raises", type(ex).__name__)
+
+    bad = []
+    for src, _ in FORMAT_FAMILY:
+        py = run(lambda: eval(src, {}, data()))  # noqa: S307 - fixed family
+        for name, env in (("default", jinja2.Environment()), ("sandboxed", SandboxedEnvironment())):
+            got = run(lambda: env.compile_expression(src)(**data()))
+            if got != py:
+                bad.append((src, f"{name} environment: {got}, Python / documented: {py}"))
+    if not bad:
+        return [Res("C02.bounded.sandbox_str_format", "bounded-ok", "native", time.time() - t0, f"{len(FORMAT_FAMILY)} format expressions agree with str.format", "bounded")]
+    wit = {"failing": sorted({b[0] for b in bad}), "first": bad[0][1]}
+    return [Res("C02.bounded.sandbox_str_format", "refuted", "native", time.time() - t0,
+                f"{len(wit['failing'])}/{len(FORMAT_FAMILY)} expressions differ, e.g. {bad[0][0]}: {bad[0][1]}", "bounded", wit)]
+
+
+def replay_sandbox_str_format(w):
+    rs = sandbox_str_format(_Holder(), "quick", 0)
+    return (rs[0].status == "refuted", rs[0].detail)
+
+
+class _Holder:
+    bound_text = None
+
+
+class _FailingTask(FnTask):
+    def finding_key(self, res):
+        return "|".join((res.witness or {}).get("failing", ["?"]))
+
+
 def _present(*names):
     def fields(st):
         return {n: emit.make_node(st, N.Expr, f"node.{n}", kind="expr") for n in names}
@@ -821,6 +945,8 @@ def emission_tasks():
     ts.append(EmitTask(PROP, "C02.emit.Const", V + "Const", N.Const, const_pred, mode="raw", replay_fn=R, min_paths=2))
     ts.append(_ConstTask(PROP, "C02.emit.Const.operand", const_atomic, "bounded", replay_const_atomic))
     ts.append(EmitTask(PROP, "C02.emit.Name", V + "Name", N.Name, name_pred, replay_fn=R, min_paths=4))
+    ts.append(_PairsTask(PROP, "C02.names.identifier_injective", local_identifiers, "bounded", replay_local_identifiers))
+    ts.append(_FailingTask(PROP, "C02.bounded.sandbox_str_format", sandbox_str_format, "bounded", replay_sandbox_str_format))
     ts.append(FnTask(PROP, "C02.emit.enter_frame", enter_frame, "emission", R))
     ts.append(FnTask(PROP, "C02.emit.commons", commons, "table", R))
     ts.append(EmitTask(PROP, "C02.emit.Filter", V + "Filter", N.Filter, filter_test_pred(True), replay_fn=R, min_paths=20))
@@ -828,9 +954,9 @@ def emission_tasks():
     ts.append(EmitTask(PROP, "C02.emit.Call", V + "Call", N.Call, call_pred, replay_fn=R, min_paths=4))
     # the argument tail is written by ONE function, CodeGenerator.signature (Filter / Test use it through the
     # signature hole checked above): its order contract is run inlined into visit_Call
-    ts.append(EmitTask(PROP, "C02.emit.signature", V + "Call", N.Call, ordered_signature_pred(False), replay_fn=R, min_paths=16,
+    ts.append(_TaggedEmitTask(PROP, "C02.emit.signature", V + "Call", N.Call, ordered_signature_pred(False), replay_fn=R, min_paths=16,
                        install_opts={"modular_signature": False}, path_filter=_sig_path_filter, env_fields={"is_async": False, "sandboxed": False}))
-    ts.append(EmitTask(PROP, "C02.emit.signature[* and ** present]", V + "Call", N.Call, ordered_signature_pred(True), replay_fn=R, min_paths=4,
+    ts.append(_TaggedEmitTask(PROP, "C02.emit.signature[* and ** present]", V + "Call", N.Call, ordered_signature_pred(True), replay_fn=R, min_paths=4,
                        install_opts={"modular_signature": False}, node_fields=_present("dyn_args", "dyn_kwargs"), path_filter=_sig_path_filter,
                        env_fields={"is_async": False, "sandboxed": False}))
     return ts
@@ -838,6 +964,39 @@ def emission_tasks():
 
 def _sig_path_filter(sc):
     return sc.outcome != "raise"
+
+
+class _TaggedEmitTask(EmitTask):
+    """finding key = the [tags] of the violated clauses, so that a different violation of the same visitor stays a VIOLATION"""
+
+    def finding_key(self, res):
+        import re
+        tags = sorted(set(re.findall(r"\[([a-z-]+)\]", res.detail or "")))
+        return "+".join(tags) or "untagged"
+
+    def replay(self, witness):
+        bad, detail = native_repeated_keyword(witness)
+        if bad:
+            return (bad, detail)
+        return native_expressions(witness)
+
+
+def native_repeated_keyword(w=None):
+    """hunt/b/C02_7: a keyword repeated through ** is a TypeError whatever its spelling"""
+    env = jinja2.Environment()
+    f = lambda **kw: sorted(kw.items())  # noqa: E731
+    env.filters["kwf"] = lambda v, **kw: sorted(kw.items())
+    out = {}
+    for src, d in (("f(cls=1, **d)", {"cls": 2}), ("f(class=1, **d)", {"class": 2}), ("f(__debug__=1, **d)", {"__debug__": 2}), ("0|kwf(class=1, **d)", {"class": 2}),
+                   ("f(class=1, **d)", {"other": 2})):
+        try:
+            out[(src, tuple(d))] = ("value", env.compile_expression(src)(f=f, d=d))
+        except Exception as ex:  # noqa
+            out[(src, tuple(d))] = ("raises", type(ex).__name__)
+    problems = [f"{k[0]} with d keys {list(k[1])}: {v}" for k, v in out.items() if k[1] != ("other",) and v != ("raises", "TypeError")]
+    if out[("f(class=1, **d)", ("other",))] != ("value", [("class", 1), ("other", 2)]):
+        problems.append(f"distinct keywords: {out[('f(class=1, **d)', ('other',))]}")
+    return (bool(problems), "; ".join(problems[:3]) or "a keyword repeated through ** raises TypeError for every spelling")
 
 
 def logic_pred(cls, op):
@@ -1065,20 +1224,31 @@ class LookupOrder(VC):
     prop = PROP
     expect_paths_min = 6
 
-    def __init__(self, fn, key="str"):
-        self.fn, self.key = fn, key
-        self.target = f"jinja2.environment:Environment.{fn}"
-        VC.__init__(self, PROP, f"C02.env.{fn}_order" + ("" if key == "str" else f"[{key} subscript]"))
+    def __init__(self, fn, key="str", sandbox=False):
+        self.fn, self.key, self.sandbox = fn, key, sandbox
+        self.target = f"jinja2.sandbox:SandboxedEnvironment.{fn}" if sandbox else f"jinja2.environment:Environment.{fn}"
+        VC.__init__(self, PROP, f"C02.env.{fn}_order" + ("[sandboxed]" if sandbox else "") + ("" if key == "str" else f"[{key} subscript]"))
 
     def configure(self, I):
         install_data_object(I)
         I.specs["Environment.undefined"] = A.abstract_fn("undefined", returns="obj", tags=("undefined",))
+        if self.sandbox:
+            # the sandbox gates on a FOUND attribute are C17's contract; here only: the same lookups, in the same order, fall
+            # through on the same signals as in the base environment ("missing values become the environment's undefined object")
+            I.specs["SandboxedEnvironment.undefined"] = I.specs["Environment.undefined"]
+            I.specs["SandboxedEnvironment.is_safe_attribute"] = A.abstract_fn("is_safe_attribute", returns="bool")
+            I.specs["SandboxedEnvironment.wrap_str_format"] = A.abstract_fn("wrap_str_format", returns="obj")
+            I.specs["SandboxedEnvironment.unsafe_undefined"] = A.abstract_fn("unsafe_undefined", returns="obj")
         if self.key == "nonstr":
             from contracts import _sbx
             _sbx.exact_types(I, {"key": int})
 
     def setup(self, I, st):
-        self.env = A.obj(st, ENV.Environment, "env")
+        if self.sandbox:
+            import jinja2.sandbox as SBX
+            self.env = A.obj(st, SBX.SandboxedEnvironment, "env")
+        else:
+            self.env = A.obj(st, ENV.Environment, "env")
         self.obj = sym("obj", "obj")
         self.keyv = sym("key", "str") if self.key == "str" else sym("key", "obj")
         return [self.env, self.obj, self.keyv], {}
@@ -1113,7 +1283,7 @@ class LookupOrder(VC):
             if e is None or not lookup_ok(e):
                 return ("fail", "expected the attribute lookup getattr(obj, key)")
             if not isinstance(e.result, Exc):
-                return ("value", e.result)
+                return ("gated" if self.sandbox else "value", e.result)
             if signals(e.result, ATTR_SIGNALS):
                 return rest()
             return ("raise", e.result)
@@ -1145,6 +1315,10 @@ class LookupOrder(VC):
             return False
         if r[0] == "value":
             return out.returned and _same(out.value, r[1])
+        if r[0] == "gated":
+            # a found attribute goes through the sandbox gates (C17): the attribute, its str.format wrapper, or the unsafe marker
+            gates = [e.result for e in out.st.trace if e.kind == "call" and e.name in ("wrap_str_format", "unsafe_undefined")]
+            return out.returned and (_same(out.value, r[1]) or any(_same(out.value, g) for g in gates))
         return out.raised and out.value is r[1]
 
     posts = [("attribute_item_undefined_order", p_order)]
@@ -1159,10 +1333,14 @@ class LookupOrder(VC):
         for e in out.st.trace:
             if e.kind == "call" and e.name in ("data.getattr", "data.getitem"):
                 seq.append([e.name, (e.result.cls.__name__ if e.result.cls else "OtherError") if isinstance(e.result, Exc) else "value"])
-        return {"fn": self.fn, "key": self.key, "lookups": seq}
+        return {"fn": self.fn, "key": self.key, "lookups": seq, "sandbox": self.sandbox}
 
     def replay(self, w):
         return replay_lookup(w)
+
+    def finding_key(self, res):
+        w = res.witness or {}
+        return ">".join(f"{a.split('.')[-1]}:{'AttributeError' if b == '_AttrSub' else b}" for a, b in w.get("lookups", [])) or "?"
 
 
 def replay_lookup(w):
@@ -1190,7 +1368,11 @@ def replay_lookup(w):
                 return "ITEM"
             raise classes[b]()
 
-    env = jinja2.Environment()
+    if w.get("sandbox"):
+        from jinja2.sandbox import SandboxedEnvironment
+        env = SandboxedEnvironment()
+    else:
+        env = jinja2.Environment()
     key = "k" if w.get("key", "str") == "str" else 3
     first, second = ("data.getattr", "data.getitem") if w["fn"] == "getattr" else ("data.getitem", "data.getattr")
     sig = {"data.getattr": ATTR_SIGNALS, "data.getitem": ITEM_SIGNALS}
@@ -1226,13 +1408,22 @@ class _Callee:
 
 class ExprCall(VC):
     """TemplateExpression.__call__(**vars): a new context is made from the given variables, the template's root render
-    function is run to completion on it, and the value is context.vars["result"] afterwards - mapped to None exactly
-    when it is an Undefined and undefined_to_none was requested."""
+    function is run TO COMPLETION on it - synchronously, or on an event loop when the environment is async (then the root
+    render function is an async generator function and cannot be iterated synchronously) - and the value is
+    context.vars["result"] afterwards, mapped to None exactly when it is an Undefined and undefined_to_none was requested."""
     prop = PROP
     target = "jinja2.environment:TemplateExpression.__call__"
 
     def __init__(self):
         VC.__init__(self, PROP, "C02.TemplateExpression.__call__")
+
+    def run_body(self, st):
+        """effect of running the template body: it may store anything into context.vars (the compiled Assign stores `result`)"""
+        h = st.get(self.vars)
+        h.dom = z3.Const(fresh_name("vars_dom_after"), h.dom.sort())
+        h.val = z3.Const(fresh_name("vars_val_after"), h.val.sort())
+        st.ghost = dict(st.ghost)
+        st.ghost["after"] = (h.dom, h.val)
 
     def configure(self, I):
         c = self
@@ -1245,33 +1436,63 @@ class ExprCall(VC):
         I.specs["Template.new_context"] = new_context
 
         def root(I_, st, args, kwargs, node):
+            # a generator in a sync environment, an ASYNC generator in an async one (compiler: `async def root`)
             r = fresh("render_generator", "obj", tags={"generator"})
             st.trace.append(Event("call", "root_render_func", list(args), dict(kwargs), r))
             return [(st, r)]
 
         I.specs["call_obj"] = lambda I_, st, args, kwargs, node: (root(I_, st, args[1:], kwargs, node) if isinstance(args[0], Sym) and "root_render_func" in args[0].tags else None)
 
-        def consume(I_, st, args, kwargs, node):
-            # running the template body: it may store anything into context.vars (the compiled Assign stores `result`)
-            h = st.get(c.vars)
-            h.dom = z3.Const(fresh_name("vars_dom_after"), h.dom.sort())
-            h.val = z3.Const(fresh_name("vars_val_after"), h.val.sort())
-            c.after = (h.dom, h.val)
-            st.trace.append(Event("call", "consume", list(args), dict(kwargs), None))
+        def body_outcomes(st, name, args, node):
+            c.run_body(st)
+            st.trace.append(Event("call", name, list(args), {}, None))
             e = Exc(None, (), tag="template_body", within=Exception, origin=getattr(node, "lineno", None))
             s2 = st.fork()
-            s2.trace.append(Event("call", "consume!raise", list(args), {}, e))
+            s2.trace.append(Event("call", name + "!raise", list(args), {}, e))
             return [(s2, Raised(e)), (st, None)]
+
+        def consume(I_, st, args, kwargs, node):
+            # utils.consume iterates synchronously: on an async generator that is a TypeError (Python)
+            out = []
+            for s, is_async in I_.fork_bool(st, c.is_async.t):
+                if is_async:
+                    e = Exc(TypeError, ("'async_generator' object is not iterable",), tag="sync_iteration_of_async_generator", origin=getattr(node, "lineno", None))
+                    s.trace.append(Event("call", "consume!async_generator", list(args), {}, e))
+                    out.append((s, Raised(e)))
+                else:
+                    out += body_outcomes(s, "consume", args, node)
+            return out
 
         from jinja2.utils import consume as real_consume
         I.specs[("fn", id(real_consume))] = consume
 
+        # the async way: a coroutine that iterates the async generator, driven by asyncio.run
+        def drive(I_, st, args, kwargs, node):
+            r = fresh("coroutine", "obj", tags={"coroutine"})
+            st.trace.append(Event("call", "consume_async", list(args[1:]), dict(kwargs), r))
+            return [(st, r)]
+
+        I.specs["TemplateExpression._consume_async"] = drive
+        import asyncio
+
+        def aio_run(I_, st, args, kwargs, node):
+            out = []
+            for s, is_async in I_.fork_bool(st, c.is_async.t):
+                if not is_async:
+                    e = Exc(TypeError, ("a sync generator cannot be driven with `async for`",), tag="async_iteration_of_sync_generator", origin=getattr(node, "lineno", None))
+                    s.trace.append(Event("call", "asyncio.run!sync_generator", list(args), {}, e))
+                    out.append((s, Raised(e)))
+                else:
+                    out += body_outcomes(s, "asyncio.run", args, node)
+            return out
+
+        I.specs[("fn", id(asyncio.run))] = aio_run
+
         def dict_new(I_, st, args, kwargs, node):
-            st.trace.append(Event("call", "dict", list(args), dict(kwargs) if isinstance(kwargs, dict) else {"**": kwargs}, None))
-            r = st.alloc(HDict(items=dict(kwargs))) if isinstance(kwargs, dict) else None
-            if r is None:
+            if not isinstance(kwargs, dict):
                 raise Unsupported("dict(**symbolic)", node)
-            st.trace[-1].result = r
+            r = st.alloc(HDict(items=dict(kwargs)))
+            st.trace.append(Event("call", "dict", list(args), dict(kwargs), r))
             return [(st, r)]
 
         I.specs[("fn", id(dict))] = dict_new
@@ -1279,33 +1500,47 @@ class ExprCall(VC):
     def setup(self, I, st):
         self.vars = A.adict(st, "context.vars", "str", "obj")
         self.ctx = A.obj(st, RT.Context, "context", fields={"vars": self.vars})
-        self.template = A.obj(st, ENV.Template, "template", fields={"root_render_func": sym("root_render_func", "obj", tags={"root_render_func"})})
+        self.is_async = sym("environment.is_async", "bool")
+        self.env = A.obj(st, ENV.Environment, "environment", fields={"is_async": self.is_async})
+        self.template = A.obj(st, ENV.Template, "template", fields={"root_render_func": sym("root_render_func", "obj", tags={"root_render_func"}),
+                                                                    "environment": self.env})
         self.u2n = sym("undefined_to_none", "bool")
         self.texpr = A.obj(st, ENV.TemplateExpression, "self", fields={"_template": self.template, "_undefined_to_none": self.u2n})
         self.a, self.b = sym("value_a", "obj"), sym("value_b", "obj")
         return [self.texpr], {"a": self.a, "b": self.b}
 
     def p_result(self, pre, out):
-        tr = [e for e in out.st.trace if e.kind == "call"]
+        tr = [e for e in out.st.trace if e.kind == "call" and e.name != "dict"]
         names = [e.name for e in tr]
+        after = out.st.ghost.get("after")
         if out.raised:
-            # what the template body raises; KeyError only if the body never stored `result` (excluded by C02.compile_expression:
-            # the template is `result = <expr>`)
-            if names[-1:] == ["consume!raise"]:
+            # only what the template body raises; KeyError only if the body never stored `result` (excluded by
+            # C02.compile_expression: the template is `result = <expr>`); never an error of the driving itself
+            if names[-1:] in (["consume!raise"], ["asyncio.run!raise"]):
                 return out.value is tr[-1].result
-            return z3.Not(z3.Select(self.after[0], z3.StringVal("result"))) if out.value.cls is KeyError and names[-1:] == ["consume"] else False
-        if [n for n in names if n != "dict"] != ["template.new_context", "root_render_func", "consume"]:
+            if out.value.cls is KeyError and names[-1:] in (["consume"], ["asyncio.run"]) and after is not None:
+                return z3.Not(z3.Select(after[0], z3.StringVal("result")))
             return False
-        nc, rr, cs = [e for e in tr if e.name != "dict"]
+        sync_shape = names == ["template.new_context", "root_render_func", "consume"]
+        async_shape = names == ["template.new_context", "consume_async", "asyncio.run"]
+        if not (sync_shape or async_shape) or after is None:
+            return False
+        nc = tr[0]
         d = nc.args[0]
         if not (isinstance(d, Ref) and isinstance(out.st.get(d), HDict) and out.st.get(d).concrete):
             return False
         items = out.st.get(d).items
         if set(items) != {"a", "b"} or not (_same(items["a"], self.a) and _same(items["b"], self.b)):
             return False
-        if not (len(rr.args) == 1 and _same(rr.args[0], self.ctx) and len(cs.args) == 1 and _same(cs.args[0], rr.result)):
-            return False
-        dom, val = self.after
+        if sync_shape:
+            rr, cs = tr[1], tr[2]
+            if not (len(rr.args) == 1 and _same(rr.args[0], self.ctx) and len(cs.args) == 1 and _same(cs.args[0], rr.result)):
+                return False
+        else:
+            dr, ar = tr[1], tr[2]
+            if not (len(dr.args) == 1 and _same(dr.args[0], self.ctx) and len(ar.args) == 1 and _same(ar.args[0], dr.result)):
+                return False
+        dom, val = after
         rv = z3.Select(val, z3.StringVal("result"))
         is_undef = isinst_fn(RT.Undefined)(rv)
         want = z3.If(z3.And(self.u2n.t, is_undef), host_const(None), rv)
@@ -1314,10 +1549,26 @@ class ExprCall(VC):
     posts = [("result_is_context_vars_result", p_result)]
 
     def concretize(self, model, pre, out):
-        return {"undefined_to_none": bool(model_value(model, self.u2n.t))}
+        return {"undefined_to_none": bool(model_value(model, self.u2n.t)), "is_async": bool(model_value(model, self.is_async.t)),
+                "raises": repr(out.value) if out.raised else None}
+
+    def finding_key(self, res):
+        w = res.witness or {}
+        return f"is_async={w.get('is_async')}:{'TypeError' if 'TypeError' in str(w.get('raises')) else w.get('raises') and 'raises' or 'value'}"
 
     def replay(self, w):
-        return native_expressions(w)
+        problems = []
+        for is_async in (False, True):
+            env = jinja2.Environment(enable_async=is_async)
+            for src, data, want in (("1 + x", {"x": 2}, 3), ("nothing", {}, None), ("x|default('d')", {}, "d")):
+                try:
+                    got = env.compile_expression(src)(**data)
+                except Exception as ex:  # noqa
+                    got = f"{type(ex).__name__}: {ex}"
+                if got != want:
+                    problems.append(f"Environment(enable_async={is_async}).compile_expression({src!r})(**{data}) -> {got!r}, documented {want!r}")
+        bad, detail = native_expressions(w)
+        return (bool(problems) or bad, "; ".join(problems[:3]) or detail)
 
 
 class CompileExpression(VC):
@@ -1508,6 +1759,7 @@ TASKS = (
     + [FnTask(PROP, "C02.tables.operators", operator_tables, "table", native_expressions)]
     + emission_tasks()
     + [LookupOrder("getattr"), LookupOrder("getitem"), LookupOrder("getitem", "nonstr")]
+    + [LookupOrder("getattr", sandbox=True), LookupOrder("getitem", sandbox=True), LookupOrder("getitem", "nonstr", sandbox=True)]
     + [CompileExpression(), ExprCall(), Resolve("resolve"), Resolve("resolve_or_missing")]
     + c02_eval.make_tasks(4) + c02_eval.EXTRA_TASKS
 )
